@@ -64,10 +64,11 @@ def gen(tape: Tape, tier: str) -> dict:
             engines=(None, None, "numpy", "flox", "numbagg"),
             max_n=24,
             max_blocks=8,
-            by_dask_p=0.2,
+            by_dask_p=0.35,
+            bydask_exact_p=0.2,  # mostly labels discovered at compute time (grouped combine, unknown-group extraction)
             # absent requested labels put the fill values (singletons such as np.nan, flox's NA/INF sentinels)
             # inside the shipped tasks
-            expected_modes=("none", "exact", "superset", "superset"),
+            expected_modes=("none", "none", "exact", "superset", "superset"),
         )
     if case["kind"] == "reduce" and tape.chance("gen.custom", 0.15):
         # a user Aggregation object, reused for a second call between graph construction and execution
